@@ -110,6 +110,10 @@ def run(ck):
         if i < 2:
             ck.sample({'nodes': len(c.nodes), 'lines': len(c.lines), 'kinds': sorted(set(n.kind for n in c.nodes))[:8],
                        'sims': sims, 'cycles': k, 'c_reuse': reuse, 'strip_forks': strip})
+    # directed: every gate kind alone x all operand tuples, through the plain loop and through the callback copy (observer only)
+    for cb in (None, lambda line, values: None):
+        for d_, what_ in sk.single_gate_sweep(ck, 2, rng, inject_cb=cb):
+            fails.append(('value', d_, what_))
     ck.rule('random circuits (all 33 primitive kinds, forks, DFF Q/QN, latches, unconnected pins, output-less gates) x 0/1 stimuli x '
             'sims in {1,3,7,8,9,17} x cycles 1..5 x c_reuse x strip_forks; distinct = circuit fingerprint (sizes, kind set)')
     # evaluate the model inside Coq
